@@ -209,4 +209,4 @@ def tasks(tier, seed):
 def run_task(task):
     S = scenarios(task['tier'], task['seed'])
     i, k = task['slice']
-    return run_scenarios(S[i::k], unitkit.units_patches, timeout_ms=20000, seed=task['seed'])
+    return run_scenarios(S[i::k], unitkit.units_patches, timeout_ms=20000, seed=task['seed'], div_zero='fork')
